@@ -797,6 +797,13 @@ class TrM:
                         raise Refuse("assignment of %s to %s attribute %s" % (tv, ty, nm))
                 self.binder(nm, ty)        # its initial value is returned on the paths that do not assign it
                 return "let %s := %s in\n  %s" % (nm, t, nxt())
+            if isinstance(target, ast.Name) and isinstance(s, ast.AugAssign) and isinstance(s.op, (ast.Add, ast.Sub)):
+                if target.id not in self.locals or self.locals[target.id] != "Z":
+                    raise Refuse("augmented assignment to %s" % target.id)
+                v, tv = self.expr(s.value)
+                if tv != "Z":
+                    raise Refuse("augmented assignment of a non-integer")
+                return "let l_%s := (l_%s %s %s) in\n  %s" % (target.id, target.id, "+" if isinstance(s.op, ast.Add) else "-", v, nxt())
             if isinstance(target, ast.Name) and isinstance(s, ast.Assign):
                 if target.id in self.params and target.id in self.drop_params:
                     return nxt()          # a parameter that is never read by the translation (normalised for the erased uses)
